@@ -286,12 +286,16 @@ def splice_body(body, bd, n_loops, n_closures):
         text = text[:p] + "-> " + (spec["ret"] or "(r: ())") + clauses + "\n" + ind + text[p + len(mark):].lstrip(" ")
     # anchors
     for a in bd.anchors:
-        mark = "__vx_anchor!(%s);" % a["name"]
-        p = text.find(mark)
-        if p < 0:
+        mm = re.search(r"__vx_anchor!\(%s(?:, (\w+))?\);" % re.escape(a["name"]), text)
+        if not mm:
             raise Undecided(f"lost anchor: {a['name']} of {bd.kv.get('id')}")
+        p, mark = mm.start(), mm.group(0)
         ind = line_indent_at(text, p)
         repl = ("\n" + ind).join(l for l in a["text"])
+        if "$lhs" in repl:
+            if not mm.group(1):
+                raise Undecided(f"lost anchor: {a['name']} of {bd.kv.get('id')} uses $lhs but is not next to a `let <name> =`")
+            repl = repl.replace("$lhs", mm.group(1))
         text = text[:p] + repl + text[p + len(mark):]
     # type ascriptions for rule-introduced collection variables (no executable effect)
     for nm, ty in bd.outtypes.items():
